@@ -412,12 +412,13 @@ def aligned_angle_ref_rule2(
         ang, _ = EulerAngle.angle_zx_z_getx(
             base_z, base_x, LorentzVector.vect(p)
         )
-        Bp = SU2M.Boost_z_from_p(LorentzVector.neg(p))
+        # the helicity frame of i reached directly from the rest frame of the
+        # top particle (as if top -> i + anything).  The rotation from the
+        # helicity frame of a chain to this frame keeps the helicity of a
+        # massless particle (restricted `spins`), the canonical frame does not.
+        Bp = SU2M.Boost_z_from_p(p)
         r = SU2M.Rotation_y(ang["beta"]) * SU2M.Rotation_z(ang["alpha"])
-        ref_matrix_final[i] = {
-            "b_matrix": SU2M([[1, 0], [0, 1]]),
-            "r_matrix": r.inv() * Bp * r,
-        }
+        ref_matrix_final[i] = {"b_matrix": Bp, "r_matrix": r}
 
     return set_x, ref_matrix_final
 
